@@ -18,6 +18,10 @@ Inductive ty :=
 | TyStruct (fields : list (bytes * ty))
 | TyElixir (module : bytes) (fields : list (bytes * ty))
 | TyEnum (variants : list (bytes * ty))
+| TyUnitStruct (name : bytes)            (* struct Marker; *)
+| TyNewtype (t : ty)                     (* struct Meters(i64);  value: RTup [v] *)
+| TyTupleStruct (ts : list ty)           (* struct Pair(i32, String);  value: RTup vs *)
+| TyBytes                                (* a type that goes through serialize_bytes / deserialize_byte_buf; value: RStr *)
 | PUnit | PNewtype (t : ty) | PTuple (ts : list ty) | PStruct (fields : list (bytes * ty)).
 
 Inductive rval :=
@@ -78,6 +82,10 @@ Section Serde.
     | RChar s, TyChar => TStr s
     | RStr b, TyString => TBin b
     | RUnit, TyUnit => TAtom n_nil
+    | RUnit, TyUnitStruct name => TAtom name
+    | RStr b, TyBytes => TBin b
+    | RTup vs, TyNewtype t' => match vs with [v'] => rser t' v' | _ => TNil end
+    | RTup vs, TyTupleStruct ts => TTuple (ser_list ts vs)
     | RNone, TyOption _ => TAtom none_atom
     | RSome v', TyOption t' => rser t' v'
     | RTup vs, TyTuple ts => TTuple (ser_list ts vs)
@@ -191,6 +199,10 @@ Section Serde.
     | TyChar => de_char tm
     | TyString => option_map RStr (key_str tm)
     | TyUnit => match tm with TAtom a => if eq_bytes a n_nil then Some RUnit else None | _ => None end
+    | TyUnitStruct name => match tm with TAtom a => if eq_bytes a name then Some RUnit else None | _ => None end
+    | TyBytes => match tm with TBin b => Some (RStr b) | _ => None end
+    | TyNewtype t' => option_map (fun v => RTup [v]) (rde t' tm)
+    | TyTupleStruct ts => match tm with TTuple l => option_map RTup (de_list ts l) | _ => None end
     | TyOption t' =>
         if match tm with TAtom a => eq_bytes a n_undefined || (interop && eq_bytes a n_nil) | _ => false end
         then Some RNone else option_map RSome (rde t' tm)
@@ -255,10 +267,12 @@ Section Serde.
 
   (* ---------- the values a Rust type holds ---------- *)
   (* may the serialised form of a value of this type be the atom that stands for None? *)
-  Definition may_none (t : ty) : bool :=
+  Fixpoint may_none (t : ty) : bool :=
     match t with
     | TyOption _ => true
     | TyUnit => interop
+    | TyUnitStruct name => eq_bytes name n_undefined || (interop && eq_bytes name n_nil)
+    | TyNewtype t' => may_none t'
     | TyEnum variants =>
         existsb (fun nv => match snd nv with PUnit => eq_bytes (fst nv) n_undefined || (interop && eq_bytes (fst nv) n_nil) | _ => false end) variants
     | _ => false
@@ -288,6 +302,10 @@ Section Serde.
     | RChar s, TyChar => single_char s
     | RStr b, TyString => utf8_valid b
     | RUnit, TyUnit => true
+    | RUnit, TyUnitStruct _ => true
+    | RStr _, TyBytes => true
+    | RTup vs, TyNewtype t' => match vs with [v'] => rwt t' v' | _ => false end
+    | RTup vs, TyTupleStruct ts => wt_list ts vs
     | RNone, TyOption t' => negb (may_none t')
     | RSome v', TyOption t' => negb (may_none t') && rwt t' v'
     | RTup vs, TyTuple ts => wt_list ts vs
